@@ -161,6 +161,11 @@ def r33(ctx, acq_funcs):
         if any(isinstance(c, ast.Call) and isinstance(c.func, ast.Attribute) and c.func.attr == "append" and path_of(c.func.value) == "self.locked" for c in walk_local(f)):
             issuers.append(f)
         elif any(isinstance(n, ast.Assign) and any(isinstance(t, ast.Subscript) and path_of(t.value) == "picked" for t in n.targets) for n in walk_local(f)) and f not in issuers:
+            # a helper that only assembles the dictionary for functions which record the job themselves is not an issuer
+            callers = [g for g in methods.values() if any(isinstance(c, ast.Call) and is_self_attr(c.func, name) for c in walk_local(g))]
+            records = lambda g: any(isinstance(c, ast.Call) and isinstance(c.func, ast.Attribute) and c.func.attr == "append" and path_of(c.func.value) == "self.locked" for c in walk_local(g))
+            if callers and all(records(g) for g in callers):
+                continue
             issuers.append(f)
     if len(issuers) < 2:
         raise AnalysisError(f"R-3.3: expected >= 2 job issuers, found {[f.name for f in issuers]}")
@@ -887,6 +892,10 @@ def run(ctx):
     ctx.attempt(r37, ctx, methods)
     ctx.rule("R-3.11", "one engine object per bookable slot: each element of engines[name] comes from its own create_engine() call (no list replication)", floor=1)
     ctx.attempt(r311, ctx)
+    ctx.rule("R-3.13", "the in-flight record that is persisted and re-issued names ensembles in one index unit (shared with C08 R-8.7): a job re-issued after a second restart holds the ensembles it held before", floor=4)
+    from . import c08 as _c08
+    from .shared import RuleProxy as _RP
+    ctx.attempt(_c08.r87, _RP(ctx, "R-3.13", " (after the next restart the job comes back one ensemble too high: the ensemble and path it really holds look idle and can be handed out again)"))
     from .shared import stale_loop_variable, whole_busy_set
     ctx.attempt(whole_busy_set, ctx, "R-3.10", " and can be swapped out of its busy ensemble by the re-sort / credited weight while in flight")
     ctx.attempt(stale_loop_variable, ctx, "R-3.9", [REPEX, FACTORY, SCHED], None, " (the wrong ensemble / engine slot is marked or booked)")
@@ -894,6 +903,7 @@ def run(ctx):
 
 
 VARIANTS = [
+    B("c03-reissue-recorded-with-offset", REPEX, "        self.locked.append((enss, trajs0))\n", "        self.locked.append((enss0, trajs0))\n", "R-3.13", control=True, why="seeded C03_h (= C08_b)"),
     B("c03-engine-list-replicated", FACTORY, "        for i in range(n_create):\n            check_engine(config, eng_key=engine)\n            engine_occ[engine].append(-1)\n            engines[engine].append(create_engine(config, eng_key=engine))", "        check_engine(config, eng_key=engine)\n        engine_occ[engine] = [-1] * n_create\n        engines[engine] = [create_engine(config, eng_key=engine)] * n_create", "R-3.11", control=True, why="seeded C03_f"),
     B("c03-engine-created-once-appended-many", FACTORY, "        for i in range(n_create):\n            check_engine(config, eng_key=engine)\n            engine_occ[engine].append(-1)\n            engines[engine].append(create_engine(config, eng_key=engine))", "        one = create_engine(config, eng_key=engine)\n        for i in range(n_create):\n            check_engine(config, eng_key=engine)\n            engine_occ[engine].append(-1)\n            engines[engine].append(one)", "R-3.11"),
     K("c03-keep-engine-list-comprehension", FACTORY, "        for i in range(n_create):\n            check_engine(config, eng_key=engine)\n            engine_occ[engine].append(-1)\n            engines[engine].append(create_engine(config, eng_key=engine))", "        check_engine(config, eng_key=engine)\n        engine_occ[engine] = [-1] * n_create\n        engines[engine] = [create_engine(config, eng_key=engine) for _ in range(n_create)]"),
